@@ -579,6 +579,7 @@ def r1_panic_cone(chk):
     for cfg, prog in chk.configs():
         roots, cone, sites = panic_sites(prog)
         r.note("%s: %d ingress roots, %d bodies in the cone, %d panic-capable sites judged" % (cfg, len(roots), len(cone), len(sites)))
+        site_keys = set(x[4] for x in sites)
         for body, blk, kind, base, key, call in sites:
             # (i) exact proof
             proved = None
@@ -604,6 +605,14 @@ def r1_panic_cone(chk):
                 r.ok(cfg, key, where(body, blk), "guarded: " + proved)
                 continue
             j = just.get(key)
+            if j is None:
+                # the function may have been renamed: same type, same construct, same buffer - and the listed name is gone
+                def _split(k):
+                    fn, kind_, ident = k.split("|", 2)
+                    return fn.rsplit("::", 1)[0], kind_, ident
+                cands = [k for k in just if _split(k) == _split(key) and k not in site_keys]
+                if len(cands) == 1:
+                    j = just[cands[0]]
             if j is not None:
                 need = j.get("needs_guard")
                 if need:
